@@ -22,12 +22,14 @@ import H3.Gen.Headers
     `fix:` commits of C12 and `false` on the tree before them —, `mapPresizeRefuses` — `false`
     on a tree with the D-01 fix (a map that cannot be pre-sized starts empty), `true` before it —,
     `hostEveryValue` — `true` on a tree with the D-12e fix (`into_request_parts` looks at every
-    `Host` value), `false` before it (only the first one) — and `otherKindRefused` — `true` on a
+    `Host` value), `false` before it (only the first one) —, `otherKindRefused` — `true` on a
     tree with the D-12f fix (`into_request_parts` refuses a section with a `:status` field,
     `into_response_parts` one with a request pseudo-header field), `false` before it (they were
-    ignored).
+    ignored) — and (a seventh) `pseudoSyntaxChecked` — `true` on a tree with the D-12g fix
+    (`Field::parse` checks the syntax of `:scheme` / `:authority` / `:path` values itself,
+    `pseudoValueSyntax`, before delegating to the `http` parsers), `false` before it.
     The model follows the tree it is built against; the theorems need `mapPresizeRefuses = false`
-    and the other five `true`. -/
+    and the other six `true`. -/
 namespace H3.Headers
 open H3.Gen
 
@@ -221,12 +223,50 @@ def tryValue (parse : Bytes → Option Bytes) (mk : Bytes → Field) (v : Bytes)
   | some x => .ok (mk x)
   | none => .err .invalidHeaderValue
 
+/-! `pseudo_value_syntax` (the D-12g fix): what `Field::parse` checks itself before it delegates a
+    `:scheme` / `:authority` / `:path` value to the `http` parsers. -/
+
+/-- `u8::is_ascii_alphabetic` -/
+def isAlpha (b : Nat) : Bool := (65 ≤ b && b ≤ 90) || (97 ≤ b && b ≤ 122)
+
+/-- `value.first().is_some_and(|b| b.is_ascii_alphabetic())` -/
+def firstIsAlpha : Bytes → Bool
+  | [] => false
+  | b :: _ => isAlpha b
+
+/-- `b.is_ascii_alphanumeric() || matches!(b, b'+' | b'-' | b'.')` -/
+def isSchemeByte (b : Nat) : Bool := isAlpha b || isDigit b || b == 43 || b == 45 || b == 46
+
+/-- the `:scheme` arm: a letter first, then letters, digits, `+`, `-`, `.` -/
+def schemeSyntax (v : Bytes) : Bool := firstIsAlpha v && v.all isSchemeByte
+
+/-- `value.rsplit(|b| *b == b'@').next().unwrap_or(value)`: what follows the last `@` (the whole
+    value when there is none) -/
+def hostPortOf (v : Bytes) : Bytes := (v.reverse.takeWhile (· != 64)).reverse
+
+/-- the `:authority` arm: more than one `@` is refused; else the part behind the `@` starts with
+    `[`, or everything behind its first `:` is a digit -/
+def authoritySyntax (v : Bytes) : Bool :=
+  if (v.filter (· == 64)).length > 1 then false
+  else (hostPortOf v).head? == some 91 || (((hostPortOf v).dropWhile (· != 58)).drop 1).all isDigit
+
+/-- the `:path` arm: `!value.contains(&b'#')` -/
+def pathSyntax (v : Bytes) : Bool := !v.contains 35
+
+/-- `pseudo_value_syntax(name, value)` -/
+def pseudoValueSyntax (name value : Bytes) : Bool :=
+  if name = nScheme then schemeSyntax value
+  else if name = nAuthority then authoritySyntax value
+  else if name = nPath then pathSyntax value
+  else true
+
 def Field.parse (H : Http) (name value : Bytes) : Res Field :=
   if name.isEmpty then .err .invalidHeaderName
   else if !isPseudoName name then
     if !nameAccepted name then .err .invalidHeaderName
     else if !validValue value then .err .invalidHeaderValue
     else .ok (.header name value)
+  else if Headers.pseudoSyntaxChecked && !pseudoValueSyntax name value then .err .invalidHeaderValue
   else if name = nScheme then tryValue H.parseScheme .scheme value
   else if name = nAuthority then tryValue H.parseAuthority .authority value
   else if name = nPath then tryValue H.parsePath .path value
